@@ -69,3 +69,14 @@ package keeper
 //@   before[C15.iei.own] #fn requires arg_epochInfo == unm["x/epochs/types.EpochInfo"](res_Value_0)
 //@ loop #1
 //@   invariant true
+
+// C18 (initialising from the exported document reproduces the epoch records exactly): every record of the document is
+// handed to AddEpochInfo as it stands - its counters, start time and start HEIGHT are the exported chain's, not the new one's.
+//@ func (Keeper).InitGenesis
+//@   flag noframe
+//@   flag havoc=AddEpochInfo
+//@ loop #1
+//@   invariant -1 <= rangeindex && rangeindex < len(genState.Epochs)
+// (at a call site inside the body the header's rangeindex is still the previous index)
+//@   before[C18.eig.asis] AddEpochInfo requires arg_epochInfo == genState.Epochs[rangeindex + 1]
+//@   step[C18.eig.asis] defined(res_AddEpochInfo_0)
